@@ -17,6 +17,7 @@ from common import *
 
 HEADER = "Require Import SqlV.Base SqlV.Depth.\n"
 DEFAULT_L = 50
+SLOW_FLAT = ("flat_union", "flat_intersect_mix", "flat_statements")
 EXC_FILE = os.path.join(VERIF, "lib", "props", "C03_exceptions.json")
 ALL_DIALECTS = ["generic", "ansi", "bigquery", "clickhouse", "databricks", "duckdb", "hive", "mssql",
                 "mysql", "postgresql", "redshift", "snowflake", "sqlite"]
@@ -176,15 +177,19 @@ def templates_for(ts, names):
     return hit
 
 
-def search_crash(bindir, ts, names, limit="default", budget=8):
+def search_crash(bindir, ts, names, limit="default", budget=8, deadline_s=100):
     """Directed search: nest the constructs that exercise the given functions until the child dies."""
     cands = templates_for(ts, names) or [t for t in ts if t["kind"] == "nest"]
-    tried = []
+    cands.sort(key=lambda t: t["kind"] != "nest")  # nesting constructs first (stable)
+    tried, t0 = [], time.time()
     for t in cands[:budget]:
+        depths = (2000, 20000, 200000, 1000000) if t["kind"] == "nest" else (20000, 200000)
         for d in t["dialects"][:2]:
-            for n in (2000, 20000, 200000, 1000000):
+            for n in depths:
                 for mode in ("thread", "main"):
-                    r = child(bindir, ["nest", t["id"], n, d, limit, mode], timeout=120)
+                    if time.time() - t0 > deadline_s:
+                        return None, tried
+                    r = child(bindir, ["nest", t["id"], n, d, limit, mode], timeout=60)
                     tried.append((t["id"], d, n, mode, r["status"]))
                     if r["status"] in ("crash", "timeout"):
                         return {"template": t["id"], "n": n, "dialect": d, "limit": limit, "stack": mode,
@@ -304,7 +309,7 @@ def check(run):
         for d in ds:
             listed = d in t["dialects"]
             for n in rungs:
-                if n >= 10 ** 6 and (not listed or t["id"] in ("flat_union", "flat_intersect_mix", "flat_statements")):
+                if n >= 10 ** 6 and (not listed or t["id"] in SLOW_FLAT):
                     continue
                 for mode in ("main", "thread"):
                     if not listed and mode == "main" and n < 10 ** 4:
@@ -378,7 +383,8 @@ def check(run):
     def run_s(j):
         kind, t, d, lim, Lv = j
         if kind == "sibling":
-            return child(bindir, ["sibling", t["id"], Lv // 2, m, d, lim, "thread"], timeout=300)
+            mm = min(m, 2000) if t["id"] in SLOW_FLAT else m  # these parse in super-linear time (C02's business)
+            return child(bindir, ["sibling", t["id"], Lv // 2, mm, d, lim, "thread"], timeout=300)
         return child(bindir, ["reuse", t["id"], 3 * Lv + 1, Lv // 2, d, lim, "thread"], timeout=300)
     sres = pmap(run_s, sj)
     sstat = {}
